@@ -162,11 +162,23 @@ type c20SizeViol struct {
 }
 
 // the body of a record of length L for a decoder; position i (1-based) of the abstract record is byte i-1
-func c20Body(dec string, l int) []byte {
+// flavour (non-JSON decoders): 0 = ASCII; 1, 2 = multi-byte UTF-8 text, so that for every limit some character straddles it
+// (the bytes at and right before the cut position are continuation bytes); 3 = binary (every byte >= 0x80)
+func c20Body(dec string, l int, flavour int) []byte {
 	b := make([]byte, l)
 	if dec != "json" {
-		for i := range b {
-			b[i] = byte('a' + i)
+		switch flavour % 4 {
+		case 0:
+			for i := range b {
+				b[i] = byte('a' + i)
+			}
+		case 1, 2:
+			text := []byte(strings.Repeat("\u00e9\u20ac\U0001F600z", l/2+2)) // 2-, 3-, 4-byte characters and an ASCII letter
+			copy(b, text[flavour%4-1:])
+		default:
+			for i := range b {
+				b[i] = byte(0x80 + (i*7)%0x40)
+			}
 		}
 		return b
 	}
@@ -243,7 +255,7 @@ func c20RunSizeGroup(id int, g c20SizeCfg, cases []*c20SizeCase, st *c20SizeStat
 
 	for ci, c := range cases {
 		func() {
-			body := c20Body(g.dec, c.L)
+			body := c20Body(g.dec, c.L, ci)
 			rec := c20Real(body, c.Rec)
 			exp := c20Real(body, c.ExpBytes)
 			mk := func(kind, want, got string) *c20SizeViol {
